@@ -41,8 +41,8 @@ CLAIMS = {
          'support and self-inverse), normalize (common factor, largest magnitude exactly 1, needs a nonzero entry), teachers_round (nearest integer, exact halves away from zero) '
          'and the copy-flag identity clauses (copy=True: argument untouched, fresh result; copy=False: the result is the argument). threshold_proportional (non-negative weights): diagonal cleared, '
          'symmetric input gives symmetric output, kept entries keep their weight, en = teachers_round(p (n^2-n)/ud), the number of surviving entries is ud * min(en, #links) (counting lemma: k pairwise '
-         'distinct cells holding 1 sum to k; Lean), every kept entry is at least as strong as every dropped one (argsort contract). The weight_conversion dispatch is bounded only.',
-         PROOF_NOTE, 'pyvc + z3 (+ one Lean-proved counting lemma) on the real source for 6 utilities; bounded stand-in for the weight_conversion dispatch', '5/C17'),
+         'distinct cells holding 1 sum to k; Lean), every kept entry is at least as strong as every dropped one (argsort contract). The weight_conversion dispatch is proved for copy=True through the contracts of the three utilities (modular calls); with copy=False it is bounded only.',
+         PROOF_NOTE, 'pyvc + z3 (+ one Lean-proved counting lemma) on the real source for 6 utilities and the weight_conversion dispatch (copy=True, modular); bounded stand-in for the in-place dispatch', '5/C17'),
  'C13': ('proof',
          'Static frame analysis (engine/pyframe): for every public function of the bct package (155, enumerated from the source, not from a list) a flow-sensitive may-alias '
          'analysis with modular callee summaries generates one frame obligation per mutation site (subscript stores, in-place operators, np.fill_diagonal/put/place/copyto, '
